@@ -38,7 +38,9 @@ def scen(label, kind, maxlen, pres, modes=ALL_MODES, remote=REMOTE, sim=None, me
 CONNECTED_REMOTE = ("fresh", "changed", "unchanged", "otherfp")
 TIERS = {
     "quick": [
-        scen("all-sequences/len3", "bounded", 3, NEGOTIATED),
+        # (bad-algorithm is refused at the same validation step as no-fingerprint; it stays in the thorough tier, so
+        #  that the quick alphabet is 32 calls with the three media calls in it)
+        scen("all-sequences/len3", "bounded", 3, NEGOTIATED, remote=tuple(c for c in REMOTE if c != "badalg")),
         scen("connected/len2", "bounded", 2, ("connected",), modes=("WebRtc",), remote=CONNECTED_REMOTE),
         # fault injection: no local socket can be bound (allowed calls may be refused - they must still be atomic);
         # this is also the deterministic witness of the open findings KF-C09-4/5
